@@ -8,6 +8,7 @@
 #ifndef NATIVE_REPLAY
 #include "rec_inv.h"
 #include "text_contracts.h"
+#include "tok_contracts.h"
 #define IS_EOL(c) ((c) == '\n' || (c) == '\r')
 #define IS_END(c) (IS_EOL(c) || (c) == '\0')
 
@@ -25,7 +26,7 @@
 
 /* filtered text -> record.  The text is the 100-byte line buffer, NUL-terminated. */
 #define LINE_TO_INSTR_CONTRACT(VALID_I, VALID_F)                                                        \
-  __CPROVER_requires(VALID_I(instr_data, sizeof(struct instr)))                                          \
+  __CPROVER_requires(VALID_I(instr_data, sizeof(struct instr)) && REC_FRESH(instr_data))   /* zeroed record (assemble_all), option byte set */ \
   __CPROVER_requires(VALID_F(filtered_asm_str, FILTERED_STR_LEN) && filtered_asm_str[FILTERED_STR_LEN - 1] == '\0') \
   __CPROVER_requires(filtered_asm_str[0] >= 'A' && filtered_asm_str[0] <= 'z')   /* the filter starts a non-empty line at its first letter-range character */ \
   __CPROVER_assigns(__CPROVER_object_whole(instr_data), __CPROVER_object_whole(filtered_asm_str)) \
@@ -44,7 +45,7 @@ int line_to_instr__e(struct instr *instr_data, char *filtered_asm_str) LINE_TO_I
 #define STI_OBJ (g_len + 1)
 #endif
 int str_to_instr__e(struct instr *instr_data, const char unfiltered_str[], int *read_len)
-  __CPROVER_requires(__CPROVER_is_fresh(instr_data, sizeof(struct instr)) && __CPROVER_is_fresh(read_len, sizeof(int)))
+  __CPROVER_requires(__CPROVER_is_fresh(instr_data, sizeof(struct instr)) && REC_FRESH(instr_data) && __CPROVER_is_fresh(read_len, sizeof(int)))
   __CPROVER_requires(g_len >= 1 && g_len <= LINE_MAX_OBJ && __CPROVER_is_fresh(unfiltered_str, STI_OBJ) && g_in == unfiltered_str)
   __CPROVER_requires(unfiltered_str[g_len] == '\0' && unfiltered_str[0] != '\0')
   __CPROVER_requires(g_bad >= 0 && g_bad <= g_len && g_q >= 0 && g_q <= g_len && g_qc == unfiltered_str[g_q])
